@@ -128,6 +128,41 @@ def assume(c):
     raise IgnoreAttempt('assume')
 
 
+import contextlib
+import os
+
+# VERIF_SYMDICT=1 restores CrossHair's symbolic dict() inside harness functions
+REAL_DICTS = os.environ.get('VERIF_SYMDICT', '0') != '1'
+
+
+@contextlib.contextmanager
+def real_dicts():
+  """CrossHair replaces every `dict(...)` call made under its tracer by a
+  ShellMutableMap; jax's C++ pytree code does not see that as a dict (it becomes a
+  LEAF), so flax code that builds a dict with dict() and hands it to jax.tree_util
+  behaves differently under the tracer than in reality.  Inside this context dict()
+  is the real constructor (keys are realised when hashed)."""
+  pm = COMPOSITE_TRACER.patching_module
+  with NoTracing():
+    saved = pm.overrides.pop(dict, None)
+  try:
+    yield
+  finally:
+    with NoTracing():
+      if saved is not None:
+        pm.overrides[dict] = saved
+
+
+def with_real_dicts(fn):
+  import functools
+
+  @functools.wraps(fn)
+  def g(*a, **k):
+    with real_dicts():
+      return fn(*a, **k)
+  return g
+
+
 class Reject(Exception):
   """Raised by a harness for an input outside its precondition (concrete mode)."""
 
@@ -155,6 +190,9 @@ def explore(fn, domains, fixed, timeout, per_path_timeout=30.0, want_witness=Tru
         raise IgnoreAttempt('domain')
     kw.update(fixed)
     try:
+      if REAL_DICTS:
+        with real_dicts():
+          return bool(fn(**kw))
       return bool(fn(**kw))
     except Reject:
       raise IgnoreAttempt('reject')
